@@ -131,7 +131,7 @@ theorem applyEffect_step0 (w : World) (i : Nat) (e : Effect) (hj : e.isJoin = fa
 theorem applyEffect_step (w : World) (i : Nat) (e : Effect) (hj : e.isJoin = false) :
     PK.Step i w.pk (applyEffect w i e).pk := (applyEffect_step0 w i e hj).toStep
 
-theorem conn_group (w : World) (i : Nat) : (w.conn i).group = (w.clients[i]?).bind (·.group) := by
+theorem conn_group_bind (w : World) (i : Nat) : (w.conn i).group = (w.clients[i]?).bind (·.group) := by
   unfold World.conn World.client?
   cases w.clients[i]? <;> rfl
 
@@ -144,7 +144,7 @@ theorem joinGroup_step (w : World) (i : Nat) (g : String) (cr : Creds) (d : Dict
   · obtain ⟨x, hx⟩ := Option.isSome_iff_exists.mp hc
     obtain ⟨gx, sx⟩ := x
     obtain ⟨c, hcc, hcg, _⟩ := pk_cl_inv hx
-    rw [conn_group, hcc] at hg
+    rw [conn_group_bind, hcc] at hg
     simp only [Option.bind_some] at hg
     rw [hg] at hcg
     subst hcg
